@@ -440,6 +440,25 @@ def r78(chk, m):
             ps.append(p)
         c = d.elem(label, ps)
         c.cls = Cell
+        # the rule commands found at the edges of the cell are cached when the cell is digested (before paragraphs are formed)
+        flat = [k for p in ps for k in (D.children(p) or [])]
+        lead = []
+        for k in flat:
+            if isinstance(k, A.TextObj) and not str(k).strip():
+                continue
+            if isinstance(k, A.Obj) and 'hline' in (k.attrs.get('__isa') or ()):
+                lead.append(k)
+                continue
+            break
+        trail = []
+        for k in reversed(flat):
+            if isinstance(k, A.TextObj) and not str(k).strip():
+                continue
+            if isinstance(k, A.Obj) and 'hline' in (k.attrs.get('__isa') or ()):
+                trail.append(k)
+                continue
+            break
+        c.attrs['@borders'] = (trail + [k for k in lead if k not in trail], [])
         return c
     cfn = Cell.properties['isBorderOnly']['get']
     rfn = Row.properties['isBorderOnly']['get']
@@ -456,15 +475,17 @@ def r78(chk, m):
         chk.decide(R, 'ArrayCell.isBorderOnly: %s' % label, got, {('return', want)},
                    'a cell holding %s is border-only: %s; expected %s (its row is deleted when every cell is border-only)' % (pars, sorted(got, key=repr), want), chk.where(cfn))
     B, CN = [[('rule', None)]], [[('text', 'x')]]
+    RT = [[('rule', None), ('text', 'x')]]
     for label, cells, want in (('all cells border-only', [B, B], True), ('content in the last cell', [B, CN], False), ('content in the first cell', [CN, B], False),
-                               ('content in the middle', [B, CN, B], False)):
+                               ('content in the middle', [B, CN, B], False), ('a rule and text in the first cell', [RT, CN], False),
+                               ('a rule alone in the first cell, text in the others', [B, CN, CN], False)):
         d = D.Dom(m)
         row = d.elem('row', [mkcell(d, 'c%d' % i, p) for i, p in enumerate(cells)])
         row.cls = Row
         outs = D.run(m, rfn, {'self': row}, cls=Row)
         got = {(k2, v if isinstance(v, bool) else 'TOP') for k2, s2, v in outs}
         chk.decide(R, 'ArrayRow.isBorderOnly: %s' % label, got, {('return', want)},
-                   'a row whose cells are %s is border-only: %s; expected %s' % (['rules' if c is B else 'content' for c in cells], sorted(got, key=repr), want), chk.where(rfn))
+                   'a row whose cells are %s is border-only: %s; expected %s' % (['rules' if c is B else ('rule+text' if c is RT else 'content') for c in cells], sorted(got, key=repr), want), chk.where(rfn))
     fn = m.find_method(Array, 'applyBorders')
     chk.analysed(fn)
     d = D.Dom(m)
